@@ -151,6 +151,10 @@ def fixed_items():
         cyc[3] = ('d3.stone', 'namespace d3\n\nimport d2\n\nstruct X3\n    f Int32\n')
         cyc[2] = ('d2.stone', 'namespace d2\n\nimport d3\n\nstruct X2\n    f d3.X3?\n')
         yield ('import-cycle|diamond with a two-cycle at the bottom, file order %s' % ''.join(map(str, perm)), False, 'import-acyclic', [cyc[i] for i in perm])
+    # the head of a route definition (signature arity x version x deprecation x body)
+    from .textspace import route_head_items
+    for label, valid, specs in route_head_items():
+        yield (label.replace(':', '|', 1), valid, None if valid else 'route-head-grammar', specs)
     # a chain of imports is fine
     yield ('import-chain|length 3', True, None, [('c0.stone', 'namespace c0\n\nimport c1\n\nstruct X0\n    f c1.X1\n'), ('c1.stone', 'namespace c1\n\nimport c2\n\nstruct X1\n    f c2.X2\n'),
                                                  ('c2.stone', 'namespace c2\n\nstruct X2\n    f Int32\n')])
